@@ -94,7 +94,7 @@ class Gen:
         if base == "fn" and self.r.random() < 0.04:
             # an identifier that is not in a Unicode normal form (a ligature, compatibility letters): the reported name is the
             # token's text, not a normalised spelling of it (seeded change C05-12)
-            nm = self.r.choice(["\ufb01", "\u2460x"[1:] + "\u00b5", "\uff46\uff4e"]) + nm
+            nm = self.r.choice(["\ufb01", "\u2460x"[1:] + "\u00b5", "\uff46\uff4e", "gr\u00f6\u00dfe_"]) + nm
             self.features.add("non-normalised-identifier")
         if base == "fn":
             self.__dict__.setdefault("_fn_names", []).append(nm)
